@@ -13,7 +13,7 @@ pub fn spec(tier: Tier) -> RunSpec {
 through a directory index and through the .html fallback, x Range values 'bytes=' + 1..6 specs (a-b, a-, -n) joined by ',' with optional blanks, every offset drawn from {0,1,L-2,L-1,L,L+1,2^63,u64::MAX,u64::MAX+1,20-digit junk, non-numeric, empty, random inside}, \
 plus malformed shapes (a-b-c, wrong unit, missing '=', '+5', blanks around '-'). Oracle M-RANGE (the harness parses the header per RFC 7233 itself): all specs valid and inside the file -> 206, per range in request order exactly file[a..=b], \
 Content-Range 'bytes a-b/L', single range Content-Length = b-a+1, several ranges one multipart/byteranges body; otherwise 416 or a 206 whose every part is self-consistent (label s-e/L with s<=e and bytes == file[s..=min(e,L-1)]). \
-Section ranges-binary: the same generator against the real release binary serving the same docroot over loopback (a quarter of the in-process volume). Non-trivial = an offset within 1 of 0 or L, a suffix or open-ended spec, >= 2 specs, or an overflow candidate; distinct by (L, path kind, header).",
+8 % of the cases rewrite the file in place (same length, other content) after it has been served once: the bytes must be those of the file as it is when the ranged request arrives. Section ranges-binary: the same generator against the real release binary serving the same docroot over loopback (a quarter of the in-process volume). Non-trivial = an offset within 1 of 0 or L, a suffix or open-ended spec, >= 2 specs, or an overflow candidate; distinct by (L, path kind, header).",
         &["'valid' follows RFC 7233 ABNF: unit 'bytes', digits only, no blanks inside a spec; everything else is in the tolerant class"],
         if tier == Tier::Quick { 900 } else { 14400 },
     )
@@ -34,7 +34,15 @@ pub fn file_content(len: u64) -> Vec<u8> { (0..len).map(byte_at).collect() }
 #[derive(Clone, Debug, Serialize, Deserialize)]
 pub struct Case { pub len: u64, pub via: u8, pub header_name: String, pub value: String,
     /// sent to the real binary over loopback instead of Server::process on the mock transport
-    #[serde(default)] pub binary: bool }
+    #[serde(default)] pub binary: bool,
+    /// Some(k): the file has just been served once and then been rewritten in place with other content of the same length (k-th variant) when the
+    /// ranged request arrives - "the bytes at those offsets" are those of the file as it is now; the original content is put back afterwards
+    #[serde(default)] pub rewrite: Option<u8> }
+
+/// k-th content variant of the same length: position-dependent like the original, different from it at (nearly) every offset
+pub fn file_content_variant(len: u64, k: u8) -> Vec<u8> { (0..len).map(|i| byte_at(i + 7919 * (k as u64 + 1))).collect() }
+
+fn disk_path(len: u64, via: u8) -> String { match via { 2 => format!("d{}/index.html", len), 3 => format!("h{}.html", len), _ => format!("f{}.bin", len) } }
 
 fn offset(l: u64) -> impl Strategy<Value = String> {
     let l1 = l as u128;
@@ -60,12 +68,16 @@ fn spec_strategy(l: u64) -> impl Strategy<Value = String> {
 }
 
 fn case_strategy(lengths: Vec<u64>) -> impl Strategy<Value = Case> {
+    (case_strategy0(lengths), proptest::option::weighted(0.08, 0u8..4)).prop_map(|(mut c, rewrite)| { c.rewrite = rewrite; c })
+}
+
+fn case_strategy0(lengths: Vec<u64>) -> impl Strategy<Value = Case> {
     prop::sample::select(lengths).prop_flat_map(|l| {
         let specs = prop_oneof![5 => proptest::collection::vec(spec_strategy(l), 1..=1), 4 => proptest::collection::vec(spec_strategy(l), 2..=6)];
         let sep = prop::sample::select(vec![",", ", ", " ,", " , ", ",\t"]);
         let unit = prop_oneof![12 => Just("bytes="), 1 => prop::sample::select(vec!["bytes =", "byte=", "", "bytes", "BYTES=", "bytes==", "items=", "bytes= "])];
         (Just(l), 0u8..4, prop::sample::select(vec!["Range", "Range", "Range", "range", "RANGE"]), specs, sep, unit)
-            .prop_map(|(len, via, h, specs, sep, unit)| Case { len, via, header_name: h.to_string(), value: format!("{}{}", unit, specs.join(sep)), binary: false })
+            .prop_map(|(len, via, h, specs, sep, unit)| Case { len, via, header_name: h.to_string(), value: format!("{}{}", unit, specs.join(sep)), binary: false, rewrite: None })
     })
 }
 
@@ -109,14 +121,26 @@ fn parse_rfc(value: &str) -> Option<Vec<Spec>> {
 }
 
 pub fn eval(ctx: &Ctx, c: &Case) -> Verdict {
+    let k = match c.rewrite { Some(k) if c.len > 0 => k, _ => return eval_with(ctx, c, file_content(c.len)) };
+    // served once with the original content (ranged and whole), then rewritten in place: same path, same length, typically the same second
+    let path = path_for(c.len, c.via);
+    for warm in [format!("GET {} HTTP/1.1\r\nHost: localhost\r\n{}: {}\r\n\r\n", path, c.header_name, c.value), format!("GET {} HTTP/1.1\r\nHost: localhost\r\n\r\n", path)] { let _ = inproc::serve_routed(warm.as_bytes(), c.binary, Entry::Process); }
+    let now = file_content_variant(c.len, k);
+    if std::fs::write(disk_path(c.len, c.via), &now).is_err() { ctx.inconclusive("rewriting a docroot file failed"); return Verdict::Discard; }
+    let v = eval_with(ctx, c, now);
+    if std::fs::write(disk_path(c.len, c.via), file_content(c.len)).is_err() { ctx.inconclusive("restoring a docroot file failed"); }
+    v
+}
+
+fn eval_with(ctx: &Ctx, c: &Case, file: Vec<u8>) -> Verdict {
     let l = c.len;
-    let file = file_content(l);
     let path = path_for(l, c.via);
     let req = format!("GET {} HTTP/1.1\r\nHost: localhost\r\n{}: {}\r\n\r\n", path, c.header_name, c.value);
     let o = inproc::serve_routed(req.as_bytes(), c.binary, Entry::Process);
     let mut problems: Vec<(String, String)> = vec![];
     let mut classes: Vec<&'static str> = vec![];
     if c.binary { classes.push("served-by-the-real-binary"); }
+    if c.rewrite.is_some() && l > 0 { classes.push("file-rewritten-in-place-since-it-was-last-served"); }
     let ctxt = format!("L={} GET {} {}: {}", l, path, c.header_name, c.value);
     if let Err((m, loc)) = &o.result { return Verdict::fail(format!("panic:{}:{}", super::common::panic_module(loc), m), format!("panic at {}; {}", loc, ctxt)); }
     let resp = match mhttp::parse(&o.out) { Ok(r) => r, Err(p) => return Verdict::fail(format!("unparseable-response:{}", p.sig), ctxt) };
